@@ -1762,7 +1762,13 @@ func (nz *normaliser) expandBody(h *helper, call *ast.CallExpr, lhs []ast.Expr, 
 	nz.changed[nz.file] = true
 	nz.notes = append(nz.notes, fmt.Sprintf("call of %s expanded in place", funcName(h.obj)))
 	if !tail && !needLabel && finalLhs == nil && nGenAssign == 1 {
+		before := len(body.List)
 		body.List = unifyResults(body.List, sfx, lastGenAssign)
+		if len(body.List) == before && len(named) > 0 {
+			// the same for named results (declared by this expansion as zero-valued locals): `err = errZq; …` where errZq is
+			// the helper's named result becomes the caller's err itself, reset to nil first
+			binds, body.List = unifyNamedResults(binds, body.List, named, lastGenAssign, h)
+		}
 	}
 	var inner *ast.BlockStmt
 	if needLabel {
@@ -1956,6 +1962,90 @@ func unifyResults(list []ast.Stmt, sfx string, fin *ast.AssignStmt) []ast.Stmt {
 	}
 	list[declAt].(*ast.AssignStmt).Tok = token.ASSIGN
 	return append(list[:len(list)-1:len(list)-1], rest...)
+}
+
+// unifyNamedResults: see the call site. Only for results of a type whose zero value is nil.
+func unifyNamedResults(binds, list []ast.Stmt, named []string, fin *ast.AssignStmt, h *helper) ([]ast.Stmt, []ast.Stmt) {
+	if fin == nil || len(fin.Lhs) != len(fin.Rhs) || len(named) != len(fin.Rhs) {
+		return binds, list
+	}
+	finAt := -1
+	for i, st := range list {
+		if st == ast.Stmt(fin) {
+			finAt = i
+		}
+	}
+	if finAt < 0 {
+		return binds, list
+	}
+	to := map[string]string{}
+	for i, r := range fin.Rhs {
+		rid, ok1 := r.(*ast.Ident)
+		lid, ok2 := fin.Lhs[i].(*ast.Ident)
+		if !ok1 || !ok2 || rid.Name != named[i] || lid.Name == "_" {
+			return binds, list
+		}
+		to[rid.Name] = lid.Name
+	}
+	// nil-able result types only
+	k := 0
+	for _, fld := range h.decl.Type.Results.List {
+		for range fld.Names {
+			nilable := false
+			switch t := fld.Type.(type) {
+			case *ast.StarExpr, *ast.MapType, *ast.FuncType, *ast.ChanType, *ast.InterfaceType:
+				nilable = true
+			case *ast.ArrayType:
+				nilable = t.Len == nil
+			case *ast.Ident:
+				nilable = t.Name == "error" || t.Name == "any"
+			}
+			if !nilable {
+				return binds, list
+			}
+			k++
+		}
+	}
+	var nb []ast.Stmt
+	for _, st := range binds {
+		drop := false
+		switch x := st.(type) {
+		case *ast.DeclStmt:
+			if gd, ok := x.Decl.(*ast.GenDecl); ok && len(gd.Specs) == 1 {
+				if vs, ok := gd.Specs[0].(*ast.ValueSpec); ok && len(vs.Names) == 1 && len(vs.Values) == 0 {
+					if nn, is := to[vs.Names[0].Name]; is {
+						nb = append(nb, &ast.AssignStmt{Lhs: []ast.Expr{ast.NewIdent(nn)}, Tok: token.ASSIGN, Rhs: []ast.Expr{ast.NewIdent("nil")}})
+						drop = true
+					}
+				}
+			}
+		case *ast.AssignStmt:
+			if len(x.Lhs) == 1 && len(x.Rhs) == 1 {
+				if l, ok := x.Lhs[0].(*ast.Ident); ok && l.Name == "_" {
+					if r, ok := x.Rhs[0].(*ast.Ident); ok {
+						if _, is := to[r.Name]; is {
+							drop = true
+						}
+					}
+				}
+			}
+		}
+		if !drop {
+			nb = append(nb, st)
+		}
+	}
+	for _, st := range list {
+		ast.Inspect(st, func(n ast.Node) bool {
+			if id, ok := n.(*ast.Ident); ok {
+				if nn, is := to[id.Name]; is {
+					id.Name = nn
+				}
+			}
+			return true
+		})
+	}
+	out := append([]ast.Stmt(nil), list[:finAt]...)
+	return nb, append(out, list[finAt+1:]...)
 }
 
 // evidentlyNonNil: the expression builds a new value (an error constructor, &T{…}).
